@@ -5,6 +5,8 @@
 //@ harness e_exec_noexec kind=enum props=C09 bound=<<a CMD that is an executable text file without a #! line (exec fails with ENOEXEC) and the same file with #!/bin/sh, under -exec and -execdir, on a file two directories below a working directory that holds a decoy of the same name>> label=<<whenever CMD runs it runs once per file with the path (./basename under -execdir) as given and, under -execdir, in the file's parent directory; the action is true exactly when CMD ran and exited 0>>
 //@ harness e_delete_prefix_roots kind=enum props=C10 bound=<<starting points cache.d (holding an entry that is not matched, so cache.d/keep and cache.d cannot be removed) and cache, whose name is a byte-prefix of the other, in both orders x tests {! -name precious, -true, -type d}>> label=<<-delete removes exactly what -depth EXPR -print reports on an identical tree, for each starting point independently of failures under an earlier starting point>>
 //@ harness e_daystart_position kind=enum props=C15 bound=<<files aged 30 s, 1 h, 5 h, 11 h, 13 h, 23 h, 25 h, 30 h, 47 h, 49 h x tests -mtime {0, 1, +0, -1}, -mmin {+600, -600, +1500}, -atime 1 x the test alone, followed by -daystart, followed by -o ( -daystart -false ), and -daystart given only as the operand of -name>> label=<<the time tests measure from 'now' unless -daystart was given BEFORE them: a -daystart later on the command line, in a later group, or as an operand of another primary changes nothing>>
+//@ harness e_newer_t_tz kind=enum props=C11 bound=<<TZ in {UTC0, CET-1CEST,M3.5.0,M10.5.0/3, EST5EDT,M3.2.0,M11.1.0, Europe/Berlin, America/New_York, Australia/Lord_Howe} x -newermt operands naming a time inside the spring-forward gap or the fall-back overlap of those zones, and an ordinary time (7 operands); each case in a child process (TZ is process-wide)>> label=<<find ends with an ordinary exit status for every literal-time operand in every time zone - a wall-clock time that does not exist or exists twice is accepted or rejected with a diagnostic, never a panic>>
+//@ harness e_missing_root kind=enum props=C02,C18 bound=<<starting points a, b and one that does not exist (first, second or last) x -maxdepth absent, 0, 1, 2 x -mindepth absent, 0, 1, 2>> label=<<a starting point that cannot be examined yields a non-zero exit status whatever the depth window, is never itself reported, and the other starting points report exactly what they report without it>>
 #[cfg(verif_replay)]
 mod verif_enum_round7 {
     use super::*;
@@ -198,4 +200,63 @@ mod verif_enum_round7 {
         assert!(out1 == out2 && rc1 == rc2, "a -daystart that does not precede the time test changed what it measures");
     }
     #[test] fn e_daystart_position() { kani::explore(daystart_position_body) }
+    // ---- C02 / C18: a starting point that cannot be examined, under every depth window ----
+    fn missing_root_body() {
+        let maxd = pick(4); // 0: none, k: -maxdepth k-1
+        let mind = pick(4); // 0: none, k: -mindepth k-1
+        let pos = pick(3);  // where the missing starting point stands among a and b
+        let d = scratch("missroot");
+        for f in ["a/x", "b/y"] { std::fs::create_dir_all(d.join(f).parent().unwrap()).unwrap(); std::fs::write(d.join(f), "").unwrap(); }
+        let (a, b, m) = (d.join("a").to_str().unwrap().to_string(), d.join("b").to_str().unwrap().to_string(), d.join("missing").to_str().unwrap().to_string());
+        let mut good: Vec<String> = vec![a.clone(), b.clone()];
+        let mut withm = good.clone();
+        withm.insert(pos, m.clone());
+        let mut tail: Vec<String> = vec!["-sorted".into()];
+        if maxd > 0 { tail.push("-maxdepth".into()); tail.push((maxd - 1).to_string()); }
+        if mind > 0 { tail.push("-mindepth".into()); tail.push((mind - 1).to_string()); }
+        tail.push("-print0".into());
+        let mk = |roots: &Vec<String>| -> Vec<String> { let mut v = vec!["find".to_string()]; v.extend(roots.iter().cloned()); v.extend(tail.iter().cloned()); v };
+        let (a1, a2) = (mk(&good), mk(&withm));
+        let (rc1, out1) = run(&a1.iter().map(|s| s.as_str()).collect::<Vec<_>>());
+        let (rc2, out2) = run(&a2.iter().map(|s| s.as_str()).collect::<Vec<_>>());
+        good.clear();
+        let _ = std::fs::remove_dir_all(&d);
+        let show = |o: &Vec<u8>| String::from_utf8_lossy(o).replace(d.to_str().unwrap(), "T").replace('\0', " ");
+        if rc1 != 0 || out1 != out2 || rc2 == 0 {
+            eprintln!("  input find T/a T/b {:?}: exit {rc1}, printed {}\n  input with T/missing as starting point #{}: exit {rc2}, printed {}", &tail, show(&out1), pos + 1, show(&out2));
+        }
+        assert!(rc1 == 0, "control run failed");
+        assert!(out1 == out2, "a starting point that cannot be examined is never printed and does not change what the others report");
+        assert!(rc2 != 0, "a starting point that cannot be examined makes the exit status non-zero, whatever -mindepth/-maxdepth say");
+    }
+    #[test] fn e_missing_root() { kani::explore(missing_root_body) }
+
+    // ---- C11: the literal-time operand of -newerXt in a time zone with daylight saving ----
+    // TZ is process-wide, so each case runs in a child: this test binary again, with TZ set, running only `inner_newer_t_tz`.
+    #[test] fn inner_newer_t_tz() {
+        let Ok(op) = std::env::var("VERIF_R7_OPERAND") else { return };
+        let d = scratch(&format!("tzin-{}", std::process::id()));
+        std::fs::write(d.join("f"), "").unwrap();
+        let (rc, _) = run(&["find", d.to_str().unwrap(), "-newermt", &op]);
+        let _ = std::fs::remove_dir_all(&d);
+        eprintln!("VERIF-R7-INNER rc={rc}");
+    }
+    fn newer_t_tz_body() {
+        let tzs = ["UTC0", "CET-1CEST,M3.5.0,M10.5.0/3", "EST5EDT,M3.2.0,M11.1.0", "Europe/Berlin", "America/New_York", "Australia/Lord_Howe"];
+        let ops = ["mar 30, 2025 02:30:00", "oct 26, 2025 02:30:00", "mar 9, 2025 02:30:00", "nov 2, 2025 01:30:00", "jul 1, 2025 12:00:00", "2025-03-30 02:30:00", "2025-10-26 02:30:00"];
+        let tz = tzs[pick(tzs.len())];
+        let op = ops[pick(ops.len())];
+        let exe = std::env::current_exe().unwrap();
+        let o = std::process::Command::new(&exe).args(["--exact", "find::verif_enum_round7::inner_newer_t_tz", "--nocapture", "--test-threads", "1"])
+            .env("TZ", tz).env("VERIF_R7_OPERAND", op).output().unwrap();
+        let err = String::from_utf8_lossy(&o.stderr).into_owned();
+        let ordinary = o.status.success() && err.contains("VERIF-R7-INNER rc=");
+        if !ordinary {
+            let line = err.lines().find(|l| l.contains("panicked")).unwrap_or("").to_string();
+            let next = err.lines().skip_while(|l| !l.contains("panicked")).nth(1).unwrap_or("").to_string();
+            eprintln!("  input TZ={tz:?} find T -newermt {op:?}: did not end with an ordinary exit status: {line} {next}");
+        }
+        assert!(ordinary, "find must end with an ordinary exit status for every operand in every time zone, never a panic");
+    }
+    #[test] fn e_newer_t_tz() { kani::explore(newer_t_tz_body) }
 }
